@@ -105,6 +105,13 @@ def make_source(spec, gdir):
             groups["misc"] = {}
         for top, sub in groups.items():
             _zip_tree(src / f"{top}.zip", sub)
+        if spec.get("zip_link"):
+            # the first archive lives in a blob store; the dataset folder holds a symlink to it
+            first = sorted(groups)[0]
+            blobs = Path(gdir) / "blobs"
+            blobs.mkdir(exist_ok=True)
+            shutil.move(src / f"{first}.zip", blobs / f"{first}.blob")
+            os.symlink(blobs / f"{first}.blob", src / f"{first}.zip")
         # extra non-zip files are allowed as long as the folder consists "mostly" of zips: #zips >= #entries // 2
         extras = ["README", "LICENSE"][:int(spec.get("readme") or 0)]
         while extras and len(groups) < (len(groups) + len(extras)) // 2:
@@ -427,8 +434,8 @@ def check(spec):
 
 
 # ------------------------------------------------------------------------------------------ strategies / enumeration
-NAMES = ["a", "b", "cls0", "cls1", "x1", "v1.0", "dog.husky", "dog.beagle"]  # class folders may carry dots
-FILES = ["f.bin", "g.dat", "img_0", "z", "notes"]
+NAMES = ["a", "b", "cls0", "cls1", "x1", "v1.0", "dog.husky", "dog.beagle", "take..2"]  # class folders may carry dots (also two in a row)
+FILES = ["f.bin", "g.dat", "img_0", "z", "notes", "s_1..wav"]
 
 
 @st.composite
@@ -466,7 +473,7 @@ def scenario_s(draw, max_crashes=3):
     return {"fmt": fmt, "tree": draw(tree_s()), "relative": rel_,
             "pre": pre_, "fn": fn_,
             "readme": draw(st.sampled_from([0, 1, 2, 2])), "workers": draw(st.sampled_from([0, 1])),
-            "path_form": draw(st.sampled_from(["path", "str", "rel_path", "symlink", "relcwd", "tilde"])), "link": draw(st.integers(0, 3)) == 0, "decoy_zip": draw(st.integers(0, 3)) == 0, "bad_zip": draw(st.sampled_from([0, 0, 0, 0, 1, 2])) if fmt == "zips" else 0, "call": draw(st.sampled_from(["keyword", "keyword", "positional"])),
+            "path_form": draw(st.sampled_from(["path", "str", "rel_path", "symlink", "relcwd", "tilde"])), "link": draw(st.integers(0, 3)) == 0, "zip_link": fmt == "zips" and draw(st.integers(0, 2)) == 0, "decoy_zip": draw(st.integers(0, 3)) == 0, "bad_zip": draw(st.sampled_from([0, 0, 0, 0, 1, 2])) if fmt == "zips" else 0, "call": draw(st.sampled_from(["keyword", "keyword", "positional"])),
             "crashes": draw(st.lists(st.floats(0, 0.999).map(lambda f: round(f, 3)), min_size=min(max_crashes, draw(st.sampled_from([0, 1, 1, 1]))),
                                     max_size=max_crashes))}
 
